@@ -48,6 +48,11 @@ Small(m, r) ==
 (***************************************************************************)
 (* BigNat events                                                           *)
 (***************************************************************************)
+RECURSIVE SumInts(_, _)
+SumInts(t, k) == IF k = 0 THEN 0 ELSE t[k] + SumInts(t, k - 1)
+AbsI(v) == IF v < 0 THEN 0 - v ELSE v
+RECURSIVE IsPow2(_)
+IsPow2(v) == v = 1 \/ (v > 1 /\ v % 2 = 0 /\ IsPow2(v \div 2))
 X(e, i) == e.x[i]
 NI(e, i) == e.n[i]
 
@@ -114,6 +119,24 @@ Holds(e) ==
          /\ BMul(X(e,3), X(e,5)) = X(e,2)
          /\ \/ BMul(X(e,6), X(e,1)) = BAdd(BMul(X(e,7), X(e,2)), X(e,3))
             \/ BMul(X(e,7), X(e,2)) = BAdd(BMul(X(e,6), X(e,1)), X(e,3))
+    [] e.op = "coprime" ->      \* the gcd fact, and are_coprime = (g <= 1)
+         /\ BMul(X(e,3), X(e,4)) = X(e,1)
+         /\ BMul(X(e,3), X(e,5)) = X(e,2)
+         /\ \/ BMul(X(e,6), X(e,1)) = BAdd(BMul(X(e,7), X(e,2)), X(e,3))
+            \/ BMul(X(e,7), X(e,2)) = BAdd(BMul(X(e,6), X(e,1)), X(e,3))
+         /\ NI(e,1) = (IF BLe(X(e,3), BOne) THEN 1 ELSE 0)
+    [] e.op = "xgcd" ->         \* x = <<a, b, g, |s|, |t|, a', b'>>, n = <<s < 0, t < 0>> : g | a, g | b, g = s*a + t*b (signed)
+         /\ BMul(X(e,3), X(e,6)) = X(e,1)
+         /\ BMul(X(e,3), X(e,7)) = X(e,2)
+         /\ LET sa == BMul(X(e,4), X(e,1))  tb == BMul(X(e,5), X(e,2)) IN
+            CASE NI(e,1) = 0 /\ NI(e,2) = 0 -> BAdd(sa, tb) = X(e,3)
+              [] NI(e,1) = 0 /\ NI(e,2) = 1 -> sa = BAdd(tb, X(e,3))
+              [] NI(e,1) = 1 /\ NI(e,2) = 0 -> tb = BAdd(sa, X(e,3))
+              [] OTHER -> FALSE
+    [] e.op = "naf" ->          \* n = <<v>>, e.t = the signed powers of two, ascending: they sum to v and no two are adjacent
+         /\ SumInts(e.t, Len(e.t)) = NI(e,1)
+         /\ \A i \in 1..Len(e.t) : IsPow2(AbsI(e.t[i]))
+         /\ \A i \in 1..(Len(e.t) - 1) : AbsI(e.t[i+1]) \div 4 >= AbsI(e.t[i])
     \* ---------------- multi-word helpers: n = <<word count, flag>> ----------------
     [] e.op = "add_uint" ->     \* x = <<a, b, r>>, n = <<w, carry>> : a + b = r + carry * 2^(64w)
          /\ BLt(X(e,3), WordsMod(NI(e,1)))
